@@ -172,12 +172,13 @@ func codecCase(t *testing.T, run *vh.Run, c *Case) {
 
 // realSnapshot: the bytes the real Snapshot() writes for a store holding the records (loaded through the real
 // loader from reference-marshalled bytes), and the records in the order Snapshot wrote them.
-func realSnapshot(t *testing.T, store int, n []NEntry, s []Sil) []byte {
+func realSnapshot(t *testing.T, run *vh.Run, store int, n []NEntry, s []Sil) []byte {
 	var buf bytes.Buffer
 	if store == storeNflog {
 		l, err := nflog.New(nflog.Options{SnapshotReader: bytes.NewReader(marshalN(n)), Retention: time.Hour, Metrics: prometheus.NewRegistry()})
 		if err != nil {
-			t.Fatal(err)
+			run.Violate("own-snapshot-refused", "nflog: a snapshot of well-formed records (reference encoding) is refused: "+err.Error(), Case{Kind: "codec", Store: store, RecsN: n, Bytes: marshalN(n)})
+			return nil
 		}
 		if _, err := l.Snapshot(&buf); err != nil {
 			t.Fatal(err)
@@ -185,7 +186,8 @@ func realSnapshot(t *testing.T, store int, n []NEntry, s []Sil) []byte {
 	} else {
 		x, err := silence.New(silence.Options{SnapshotReader: bytes.NewReader(marshalS(s)), Retention: time.Hour, Metrics: prometheus.NewRegistry()})
 		if err != nil {
-			t.Fatal(err)
+			run.Violate("own-snapshot-refused", "silences: a snapshot of well-formed records (reference encoding) is refused: "+err.Error(), Case{Kind: "codec", Store: store, RecsS: s, Bytes: marshalS(s)})
+			return nil
 		}
 		if _, err := x.Snapshot(&buf); err != nil {
 			t.Fatal(err)
@@ -371,10 +373,15 @@ func codecAll(t *testing.T, run *vh.Run, r *vh.Rand, env vh.Env) {
 			n = append(n, genNEntry(r, j, true))
 			s = append(s, genSil(r, j, vh.Pick(r, []string{"new", "legacy"}), true))
 		}
-		b := realSnapshot(t, storeNflog, n, nil)
+		b := realSnapshot(t, run, storeNflog, n, nil)
 		c := Case{Kind: "codec", Store: storeNflog, RecsN: n, Bytes: b}
-		codecCase(t, run, &c)
-		b = realSnapshot(t, storeSilence, nil, s)
+		if b != nil || k == 0 {
+			codecCase(t, run, &c)
+		}
+		b = realSnapshot(t, run, storeSilence, nil, s)
+		if b == nil && k > 0 {
+			continue
+		}
 		up := make([]Sil, len(s))
 		for i := range s {
 			up[i] = s[i].Upgraded()
